@@ -388,11 +388,25 @@ def default_hints(keys) -> Dict[str, str]:
 IS_VALID = "ahbicht.content_evaluation.is_valid_expression"
 
 
-def run_is_valid(model: SrcModel, t_or_str, chooser=None):
+def run_is_valid(model: SrcModel, t_or_str, chooser=None, obs: Optional[dict] = None, schedule: str = "fwd"):
     """Abstract run of is_valid_expression with a setter that re-configures the stub evaluators from the generated
-    ContentEvaluationResult. Returns (result tuple | ('raise', cls), number of evaluations that were started)."""
+    ContentEvaluationResult. The setter is context-local, as its documentation demands of a real one (it writes a
+    ContextVar): what it configures is visible in the task that called it and in tasks created afterwards from that
+    context. Returns (result tuple | ('raise', cls), number of evaluations that were started). `obs` (optional) receives
+    'configs' (ids of the configurations set) and 'lookups' ((evaluator, key, id of the configuration seen))."""
     h = Harness(model, chooser)
     it = h.it
+    if schedule == "rev":
+        it.gather_order = lambda n: list(reversed(range(n)))
+    active = {"cfg": None}
+    it.ctx_cells.extend([(h.rc_eval.fields, "_evaluation_methods"), (h.rc_eval.fields, "stub_methods"), (h.fc_eval.fields, "_evaluation_methods"),
+                         (h.fc_eval.fields, "stub_methods"), (h.hints.fields, "table"), (active, "cfg")])
+    if obs is not None:
+        obs.setdefault("configs", [])
+        obs.setdefault("lookups", [])
+        for kind, cls_ in (("rc", "StubRcEvaluator"), ("fc", "StubFcEvaluator")):
+            it.call_observers[f"{STUB_MODULE}.{cls_}.get_evaluation_method"] = (lambda a, k, kind=kind: obs["lookups"].append((kind, a[1] if len(a) > 1 else k.get("condition_key"), active["cfg"])))
+        it.call_observers[f"{STUB_MODULE}.StubHintsProvider.get_hint_text"] = lambda a, k: obs["lookups"].append(("hint", a[1] if len(a) > 1 else k.get("condition_key"), active["cfg"]))
     stub = model.module(STUB_MODULE)
     make_rc = FuncVal(fn=stub.functions["make_rc_method"], module=stub)
     make_fc = FuncVal(fn=stub.functions["make_fc_method"], module=stub)
@@ -413,6 +427,9 @@ def run_is_valid(model: SrcModel, t_or_str, chooser=None):
             fm[k] = it.call(make_fc, [{"*": (v.fields.get("format_constraint_fulfilled"), v.fields.get("error_message"))}, False], {}, None, None)
         h.fc_eval.fields["_evaluation_methods"] = h.fc_eval.fields["stub_methods"] = fm
         h.hints.fields["table"] = dict(cer.fields.get("hints") or {})
+        active["cfg"] = counter["n"]
+        if obs is not None:
+            obs["configs"].append(counter["n"])
         return None
 
     it.ext_handlers["vstat.setter"] = setter
